@@ -367,15 +367,29 @@ func (g *generator) walkEnum(schema *openapi3.Schema) (ast.Type, error) {
 		return ast.Type{}, err
 	}
 
+	// `null` listed among the values (the way a nullable enum accepts it) is not a
+	// member: it makes the type nullable.
+	nullable := false
 	for _, value := range schema.Enum {
+		if value == nil {
+			nullable = true
+			continue
+		}
+
 		enums = append(enums, ast.EnumValue{
 			Type:  enumType,
 			Name:  fmt.Sprintf(format, value),
 			Value: typedValue(schema, value),
 		})
 	}
+	if len(enums) == 0 {
+		return ast.Type{}, fmt.Errorf("enum with no values")
+	}
 
-	return ast.NewEnum(enums, ast.Default(typedValue(schema, schema.Default))), nil
+	def := ast.NewEnum(enums, ast.Default(typedValue(schema, schema.Default)))
+	def.Nullable = nullable
+
+	return def, nil
 }
 
 func (g *generator) walkDisjunctions(schemaRefs []*openapi3.SchemaRef, discriminator string, mapping map[string]string) (ast.Type, error) {
